@@ -31,6 +31,22 @@ def embed_pair(L, R, Ls):
     return L, R
 
 
+def blank_pair(L, R):
+    """trees as a program builds them: an absent text / tail is the EMPTY STRING rather than None, on both sides alike
+    (every second absent field, by position)"""
+    for t in (L, R):
+        k = 0
+        for e in t.iter():
+            if not isinstance(e.tag, str):
+                continue
+            k += 1
+            if e.text is None and k % 2:
+                e.text = ""
+            if e.tail is None and e is not t and k % 3 == 0:
+                e.tail = ""
+    return L, R
+
+
 def build_case(Ls, Rs, opts):
     """Ls, Rs: XML strings.  Returns dict(term, desc, matches, raw (actions or exception name), run) or None if
     the case is outside the modelled fragment (float pow anomaly)."""
@@ -39,6 +55,8 @@ def build_case(Ls, Rs, opts):
     opts = dict(opts)
     if opts.pop("_embed", False):
         embed_pair(L, R, Ls)
+    if opts.pop("_blank", False):
+        blank_pair(L, R)
     if not (treeenc.supported(L) and treeenc.supported(R)):
         return None
     run = DiffRun(L, R, opts)
